@@ -33,7 +33,7 @@ let snapshot pl (s : st) =
     (int_of_nat s.s_pos) (match s.s_out with None -> -1 | Some k -> int_of_nat k)
     (bits_str s.s_bits) (bits_str (Some s.s_ranges))
     (if s.s_delay then 1 else 0) (if s.s_errno then 1 else 0) (if s.s_storerr then 1 else 0)
-    refs blk mp (List.length s.s_hq) fo mp (mp * pl)
+    refs blk mp (List.length s.s_hq) fo (int_of_nat s.s_mem) (int_of_nat s.s_mem * pl)
 
 let disk_token (f : fnode) =
   if f.f_pad then "P" else
